@@ -361,6 +361,14 @@ func init() {
 }
 
 func runC04(c *rt.Ctx) {
+	appenderSweep(c, func() []any {
+		var out []any
+		for _, v := range []size.Size{size.Size(0), size.Size(1), size.Size(1000), size.Size(1024), size.Size(1536), size.Size(1 << 60), size.Size(1<<64 - 1)} {
+			v := v
+			out = append(out, v, &v)
+		}
+		return out
+	}())
 	configuredEpisode() // the process has a past: failing configured Formatters and Parsers, since restored
 	c.Extra("history_before_the_streams", "an episode of failing configured Formatter/Parser variables in all five packages")
 	c.SetRule("sizes: all values below 2^20 (exhaustive), odd x 2^k for every k in 0..63, every decimal length 1..20, neighbours of 1000^k and 1024^k, the largest multiples of each 1024^k, 2^64-1..2^64-4, seeded 64-bit values; x all 8 combinations of DisableMarshalTextUnit / DisableMarshalJSONStringForm / DisableMarshalJSONObjectForm; " +
